@@ -510,6 +510,11 @@ def boundary_cases():
                 for steps in (1, 2, 7):
                     out.append({**base, "op": op, "steps": steps, "dt": 0.5, "freq": 300.0,
                                 "refrac": None if refrac_k is None else refrac_k * 0.5, "comp": comp})
+        # interval scale exactly 0 (rate * refrac == 1000, functional API only: the modules reject it): every interval
+        # equals refrac/dt exactly, so the count-down comparison `< 1` and the floor are exercised at equality
+        for (dt_, refrac_, freq_) in ((1.0, 2.0, 500.0), (1.0, 4.0, 250.0), (2.0, 8.0, 125.0), (1.0, 1.0, 1000.0)):
+            out.append({**base, "op": op, "steps": 13, "dt": dt_, "freq": freq_, "refrac": refrac_, "comp": True,
+                        "intens": [1.0, 0.0, 1.0], "fn_only": True})
         # steps < refrac/dt : nbins = 0, silent output
         out.append({**base, "op": op, "steps": 2, "dt": 1.0, "freq": 100.0, "refrac": 3.0, "comp": True})
         # all-zero and all-one intensities, scalar tensor
@@ -526,7 +531,7 @@ def boundary_cases():
                 "intens": [0.0, 1.0, 0.5, 0.25, 0.0, 1.0]})
     mods = []
     for c in out:
-        if c["op"] != "berninh":
+        if c["op"] != "berninh" and not c.get("fn_only"):
             for via in ("ctor", "setters"):
                 mods.append({**c, "api": "mod", "via": via, "order": ["dt", "steps", "refrac", "frequency"]})
     return out + mods[::3]
@@ -700,6 +705,11 @@ def enc_cases(rng, nrand):
             cases.append([b, f"encset refrac {v}"])
         for v in ("T", "F"):
             cases.append([b, f"encset comp {v}"])
+    # a rejected setter followed by a dt change (a rejected negative refrac unpins refrac from dt)
+    for b in bases + ["encnew hp 5 1 100 N F"]:
+        for bad in ("refrac -1", "freq -5", "dt 0", "steps 0", "refrac 10", "freq 2000"):
+            for v in ("1/4", "2", "4"):
+                cases.append([b, f"encset {bad}", f"encset dt {v}", "encset refrac N", f"encset dt 1"])
     for kind in ("approx", "interval"):
         b = f"encnew {kind} 5 1 100 N F"
         for v in V_STEPS:
@@ -770,7 +780,7 @@ def explore(ctx) -> Exploration:
     ex = Exploration()
     rng = ctx.rng
     thorough = ctx.tier == "thorough" or ctx.intensify
-    per = 60 if not thorough else 450
+    per = 200 if not thorough else 4000
     cases = boundary_cases()
     nb = len(cases)
     for op in OPS:
@@ -786,7 +796,7 @@ def explore(ctx) -> Exploration:
     obs = run_encoder_cases(ctx, cases, ex)
 
     # modules must reject frequency * refrac >= 1000 under compensation on every path
-    attempts = incompatible_attempts(rng, 40 if not thorough else 300)
+    attempts = incompatible_attempts(rng, 60 if not thorough else 1000)
     for a in attempts:
         ex.evaluations += 1
         ex.count("incompatible_attempt_path", a["path"])
@@ -798,7 +808,7 @@ def explore(ctx) -> Exploration:
                                        case={"attempt": a, "observed": r, "expected": "ValueError"}))
 
     # constructor / setter sequences against the configuration machine
-    ecases = enc_cases(rng, 150 if not thorough else 1500)
+    ecases = enc_cases(rng, 250 if not thorough else 6000)
     for c in ecases:
         for l in c:
             t = l.split()
